@@ -74,7 +74,8 @@ def table(spec: str) -> pd.DataFrame:
         a, _, rows = arg.partition(":")   # "synth_z:0.0:21" = the same family tabulated with 21 rows (500 psi apart)
         return synth_consistent(float(a), n=int(rows)) if rows else synth_consistent(float(a))
     if kind == "synth_alpha":
-        return synth_alpha(arg)
+        shape, _, rows = arg.partition(":")   # "synth_alpha:constant:11" = the same table with 11 rows (990 psi apart)
+        return synth_alpha(shape, n=int(rows)) if rows else synth_alpha(shape)
     raise KeyError(spec)
 
 
